@@ -403,6 +403,410 @@ theorem C11_trace_fresh (sha1 : Bytes → Bytes) (s : HState) (halive : s.alive 
   rw [hc, hb] at this
   exact this
 
+/-! ### The whole client: every `Have` any task ever writes names a stored piece -/
+
+section Whole
+open Rdest.Swarm.Loop Rdest.Props.C01 Rdest.Props.C12
+
+theorem quiet_case (c : Bool) (P : Prop) [Decidable P] (x st' : M11)
+    (h : (if c = true then none else if P then some x else none) = some st') : P ∧ st' = x := by
+  cases c with
+  | true => simp at h
+  | false =>
+    by_cases hp : P
+    · simp only [Bool.false_eq_true, if_false, hp, if_true, Option.some.injEq] at h; exact ⟨hp, h.symm⟩
+    · simp [hp] at h
+
+/-- What the monitor's acceptance of one step says about announcements: what is written was held back or is being
+    broadcast now, and so is what is held back afterwards. -/
+theorem step11c_sub (st : M11) (inp : TIn) (obs : List Obs) (e : Option Bool) (st' : M11)
+    (h : step11c st inp obs e = some st') :
+    (∀ i ∈ haveWrites obs, i ∈ st.buffered ∨ ∃ rep, inp = .bcHave i rep) ∧
+    (∀ i ∈ st'.buffered, i ∈ st.buffered ∨ ∃ rep, inp = .bcHave i rep) := by
+  unfold step11c at h
+  have quiet : ∀ (c : Bool) (x : M11), x.buffered = st.buffered →
+      (if c = true then none else if haveWrites obs = [] then some x else none) = some st' →
+      (∀ i ∈ haveWrites obs, i ∈ st.buffered ∨ ∃ rep, inp = .bcHave i rep) ∧
+      (∀ i ∈ st'.buffered, i ∈ st.buffered ∨ ∃ rep, inp = .bcHave i rep) := by
+    intro c x hx hq
+    obtain ⟨hw, rfl⟩ := quiet_case _ _ _ _ hq
+    exact ⟨fun j hj => (by rw [hw] at hj; cases hj), fun j hj => (by rw [hx] at hj; exact Or.inl hj)⟩
+  cases inp with
+  | bcHave i rep =>
+    dsimp only at h
+    cases hc : st.choked with
+    | true =>
+      simp only [hc, if_true] at h
+      obtain ⟨hw, rfl⟩ := quiet_case _ _ _ _ h
+      refine ⟨fun j hj => (by rw [hw] at hj; cases hj), fun j hj => ?_⟩
+      simp only [List.mem_append, List.mem_singleton] at hj
+      rcases hj with hj | rfl
+      · exact Or.inl hj
+      · exact Or.inr ⟨rep, rfl⟩
+    | false =>
+      simp only [hc, Bool.false_eq_true, if_false] at h
+      obtain ⟨hw, rfl⟩ := quiet_case _ _ _ _ h
+      refine ⟨fun j hj => ?_, fun j hj => Or.inl hj⟩
+      rw [hw] at hj; simp only [List.mem_singleton] at hj; subst hj
+      exact Or.inr ⟨rep, rfl⟩
+  | frame m rep d =>
+    cases m with
+    | choke => (dsimp only at h; exact quiet _ _ (by exact rfl) h)
+    | unchoke =>
+      dsimp only at h
+      by_cases hu : (cmds obs).contains Cmd.recvUnchoke = true
+      · simp only [hu, if_true] at h
+        obtain ⟨hw, rfl⟩ := quiet_case _ _ _ _ h
+        exact ⟨fun j hj => (by rw [hw.1] at hj; exact Or.inl hj), fun j hj => (by cases hj)⟩
+      · simp only [hu, Bool.false_eq_true, if_false] at h
+        exact quiet _ _ (by exact rfl) h
+    | handshake ih pid => cases rep <;> (dsimp only at h; exact quiet _ _ (by exact rfl) h)
+    | keepAlive => (dsimp only at h; exact quiet _ _ (by exact rfl) h)
+    | interested => (dsimp only at h; exact quiet _ _ (by exact rfl) h)
+    | notInterested => (dsimp only at h; exact quiet _ _ (by exact rfl) h)
+    | haveP k => (dsimp only at h; exact quiet _ _ (by exact rfl) h)
+    | bitfield bs => (dsimp only at h; exact quiet _ _ (by exact rfl) h)
+    | request a b c => (dsimp only at h; exact quiet _ _ (by exact rfl) h)
+    | piece a b c => (dsimp only at h; exact quiet _ _ (by exact rfl) h)
+    | cancel a b c => (dsimp only at h; exact quiet _ _ (by exact rfl) h)
+  | start rep => cases rep <;> (dsimp only at h; exact quiet _ _ (by exact rfl) h)
+  | recvErr => (dsimp only at h; exact quiet _ _ (by exact rfl) h)
+  | eof => (dsimp only at h; exact quiet _ _ (by exact rfl) h)
+  | bcState en => (dsimp only at h; exact quiet _ _ (by exact rfl) h)
+  | ticks k => (dsimp only at h; exact quiet _ _ (by exact rfl) h)
+
+theorem mem_haveWrites (sha1 : Bytes → Bytes) (outs : List HOut) (i : Nat) (h : HOut.write (.haveP i) ∈ outs) :
+    i ∈ haveWrites (outs.filterMap (obsOf sha1)) := by
+  simp only [haveWrites, writes, List.mem_filterMap]
+  exact ⟨.haveP i, ⟨.write (.haveP i), ⟨.write (.haveP i), h, rfl⟩, rfl⟩, rfl⟩
+
+/-- One step of a live task, any input: every `Have` it writes, and everything it holds back afterwards, was held back
+    before or is the broadcast being handled (from the soundness of the C11 monitor, applied to this one step). -/
+theorem have_step (sha1 : Bytes → Bytes) (d : Option (Bytes × Bytes)) (t : HState) (inp : HIn) (t' : HState)
+    (outs : List HOut) (e : Option Bool) (hal : t.alive = true) (h : hstep sha1 (diskOf d) t inp = some (t', outs, e)) :
+    (∀ i, HOut.write (.haveP i) ∈ outs → i ∈ t.msgBuff ∨ ∃ rep, inp = .bcHave i rep) ∧
+    (t'.alive = true → ∀ i ∈ t'.msgBuff, i ∈ t.msgBuff ∨ ∃ rep, inp = .bcHave i rep) := by
+  have hg : (!t.alive) = false := by simp [hal]
+  have key : ∀ (ti : TIn), tstep sha1 t ti = some (t', outs, e) →
+      (∀ i, HOut.write (.haveP i) ∈ outs → i ∈ t.msgBuff ∨ ∃ rep, ti = .bcHave i rep) ∧
+      (t'.alive = true → ∀ i ∈ t'.msgBuff, i ∈ t.msgBuff ∨ ∃ rep, ti = .bcHave i rep) := by
+    intro ti hti
+    obtain ⟨st', hacc, hR'⟩ := step11_sound sha1 { choked := t.choked, buffered := t.msgBuff, alive := true } t ti t' outs e
+      ⟨hal.symm, fun _ => ⟨rfl, rfl⟩⟩ hti
+    simp only [step11, Bool.not_true, Bool.false_eq_true, if_false] at hacc
+    obtain ⟨h1, h2⟩ := step11c_sub _ _ _ _ _ hacc
+    refine ⟨fun i hi => h1 i (mem_haveWrites sha1 outs i hi), fun ha' i hi => ?_⟩
+    have := (hR'.2 ha').2
+    rw [← this] at hi
+    exact h2 i hi
+  cases inp with
+  | frame m rep =>
+    obtain ⟨k1, k2⟩ := key (.frame m rep d) h
+    exact ⟨fun i hi => (k1 i hi).imp id (fun ⟨_, hc⟩ => by cases hc),
+           fun ha' i hi => (k2 ha' i hi).imp id (fun ⟨_, hc⟩ => by cases hc)⟩
+  | bcHave j rep =>
+    have h' : tstep sha1 t (.bcHave j rep) = some (t', outs, e) := by
+      simp only [tstep]
+      simp only [hstep, hg, Bool.false_eq_true, if_false] at h ⊢
+      exact h
+    obtain ⟨k1, k2⟩ := key (.bcHave j rep) h'
+    exact ⟨fun i hi => (k1 i hi).imp id (fun ⟨_, hc⟩ => by cases hc; exact ⟨_, rfl⟩),
+           fun ha' i hi => (k2 ha' i hi).imp id (fun ⟨_, hc⟩ => by cases hc; exact ⟨_, rfl⟩)⟩
+  | eof =>
+    simp only [hstep, hg, Bool.false_eq_true, if_false, terminate, Option.some.injEq, Prod.mk.injEq] at h
+    obtain ⟨rfl, rfl, _⟩ := h
+    exact ⟨fun i hi => (by cases hi), fun ha' => (by simp at ha')⟩
+  | recvErr =>
+    simp only [hstep, hg, Bool.false_eq_true, if_false, terminate, Option.some.injEq, Prod.mk.injEq] at h
+    obtain ⟨rfl, rfl, _⟩ := h
+    exact ⟨fun i hi => (by cases hi), fun ha' => (by simp at ha')⟩
+  | start =>
+    simp only [hstep, hg, Bool.false_eq_true, if_false, Option.some.injEq, Prod.mk.injEq] at h
+    obtain ⟨rfl, rfl, _⟩ := h
+    exact ⟨fun i hi => (by cases hi), fun _ i hi => Or.inl hi⟩
+  | bcState en =>
+    simp only [hstep, hg, Bool.false_eq_true, if_false] at h
+    split at h <;>
+      (simp only [Option.some.injEq, Prod.mk.injEq] at h
+       obtain ⟨rfl, rfl, _⟩ := h
+       exact ⟨fun i hi => (by simp at hi), fun _ i hi => Or.inl hi⟩)
+  | tick =>
+    simp only [hstep, hg, Bool.false_eq_true, if_false] at h
+    split at h
+    · simp only [terminate, Option.some.injEq, Prod.mk.injEq] at h
+      obtain ⟨rfl, rfl, _⟩ := h
+      exact ⟨fun i hi => (by cases hi), fun ha' => (by simp at ha')⟩
+    · simp only [Option.some.injEq, Prod.mk.injEq] at h
+      obtain ⟨rfl, rfl, _⟩ := h
+      exact ⟨fun i hi => (by simp at hi), fun _ i hi => Or.inl hi⟩
+
+theorem handlePiece_length (st : List Status) (p : MPeer) (c : Option Nat) :
+    (handlePiece st p c).1.length = st.length := by
+  unfold handlePiece
+  cases c with
+  | none => rfl
+  | some c => dsimp only; split <;> simp [modifyAt_length]
+
+/-- No manager step changes the number of pieces. -/
+theorem mstep_length (s s' : MState) (ev : Ev) (r : Reply) (h : mstep s ev = .ok s' r) :
+    s'.statuses.length = s.statuses.length := by
+  cases ev with
+  | add a n => simp only [mstep, Out.ok.injEq] at h; rw [← h.1]
+  | choke a =>
+    simp only [mstep] at h
+    split at h
+    · cases h
+    · simp only [Out.ok.injEq] at h; rw [← h.1]; dsimp only; split <;> simp [modifyAt_length]
+  | unchoke a chosen =>
+    simp only [mstep] at h
+    split at h
+    · cases h
+    · have h0 : ∀ (p : MPeer), (match p.choked, p.pieceIndex with
+          | false, some old => modifyAt s.statuses old decr
+          | _, _ => s.statuses).length = s.statuses.length := by
+        intro p; split <;> simp [modifyAt_length]
+      split at h
+      · simp only [Out.ok.injEq] at h; rw [← h.1]; dsimp only; rw [modifyAt_length]; exact h0 _
+      · simp only [Out.ok.injEq] at h; rw [← h.1]; exact h0 _
+  | interested a =>
+    simp only [mstep] at h
+    split at h
+    · cases h
+    · simp only [Out.ok.injEq] at h; rw [← h.1]
+  | notInterested a chosen =>
+    simp only [mstep] at h
+    split at h
+    · cases h
+    · simp only [Out.ok.injEq] at h; rw [← h.1]
+  | «have» a i chosen =>
+    simp only [mstep] at h
+    split at h
+    · cases h
+    · split at h
+      · cases h
+      · split at h
+        · split at h
+          · split at h <;> (simp only [Out.ok.injEq] at h; obtain ⟨rfl, _⟩ := h; first | rfl | simp [modifyAt_length])
+          · simp only [Out.ok.injEq] at h; rw [← h.1]
+        · simp only [Out.ok.injEq] at h; rw [← h.1]
+  | bitfield a bits chosen =>
+    simp only [mstep] at h
+    split at h
+    · cases h
+    · split at h
+      · cases h
+      · simp only [Out.ok.injEq] at h; rw [← h.1]
+  | pieceDone a chosen =>
+    simp only [mstep] at h
+    split at h
+    · cases h
+    · split at h
+      · cases h
+      · simp only [Out.ok.injEq] at h; rw [← h.1]; simp [handlePiece_length, modifyAt_length]
+  | pieceCancel a chosen =>
+    simp only [mstep] at h
+    split at h
+    · cases h
+    · split at h
+      · cases h
+      · simp only [Out.ok.injEq] at h; rw [← h.1]; simp [handlePiece_length, modifyAt_length]
+  | kill a =>
+    simp only [mstep] at h
+    split at h
+    · simp only [Out.ok.injEq] at h; rw [← h.1]
+    · simp only [Out.ok.injEq] at h; rw [← h.1]; dsimp only
+      split
+      · split <;> simp [modifyAt_length]
+      · rfl
+
+/-- What `Handled` does to the statuses: a manager step, or nothing. -/
+theorem handled_cases (T : Torrent) (a : Nat) (m m1 : MState) (cs : List Cmd) (rep : Rep)
+    (hH : Handled T a m cs rep m1) : m1 = m ∨ ∃ ev r, mstep m ev = .ok m1 r ∧ (cs = [.pieceDone] → ∃ ch, ev = .pieceDone a ch) := by
+  cases cs with
+  | nil => exact Or.inl hH
+  | cons c rest =>
+    cases rest with
+    | cons c2 r2 => cases c <;> simp [Handled] at hH
+    | nil =>
+      cases c with
+      | init pid => exact Or.inl hH
+      | recvRequest idx => exact Or.inl hH
+      | recvChoke => exact Or.inr ⟨_, _, hH, fun hc => by cases hc⟩
+      | recvInterested => exact Or.inr ⟨_, _, hH, fun hc => by cases hc⟩
+      | recvUnchoke => obtain ⟨_, _, hm, _⟩ := hH; exact Or.inr ⟨_, _, hm, fun hc => by cases hc⟩
+      | recvNotInterested => obtain ⟨_, _, hm, _⟩ := hH; exact Or.inr ⟨_, _, hm, fun hc => by cases hc⟩
+      | recvHave j => obtain ⟨_, _, hm, _⟩ := hH; exact Or.inr ⟨_, _, hm, fun hc => by cases hc⟩
+      | recvBitfield bs => obtain ⟨_, _, _, hm, _⟩ := hH; exact Or.inr ⟨_, _, hm, fun hc => by cases hc⟩
+      | pieceCancel => obtain ⟨_, _, hm, _⟩ := hH; exact Or.inr ⟨_, _, hm, fun hc => by cases hc⟩
+      | pieceDone => obtain ⟨ch, _, hm, _⟩ := hH; exact Or.inr ⟨_, _, hm, fun _ => ⟨ch, rfl⟩⟩
+
+theorem afterEnd_keeps (a : Nat) (e : Option Bool) (m : MState) :
+    (afterEnd a e m).statuses.length = m.statuses.length ∧
+    ∀ i : Nat, m.statuses[i]? = some Status.have → (afterEnd a e m).statuses[i]? = some Status.have := by
+  unfold afterEnd
+  cases e with
+  | none => exact ⟨rfl, fun _ h => h⟩
+  | some b =>
+    dsimp only
+    cases hk : mstep m (.kill a) with
+    | panic w => exact ⟨rfl, fun _ h => h⟩
+    | ok m' r => exact ⟨mstep_length m m' _ r hk, fun i h => T1_have_absorbing m m' _ r hk i h⟩
+
+/-- The whole client with two ghost logs: the indices the manager has broadcast `SendHave` for (`handle_piece_done`
+    broadcasts the index of the piece assigned to the connection that reported `PieceDone`), and every `Have` frame any
+    task has written, with the address it went to. -/
+structure SysH where
+  S : Sys
+  announced : List Nat
+  wrote : List (Nat × Nat)
+
+def haveFrames (a : Nat) (outs : List HOut) : List (Nat × Nat) :=
+  outs.filterMap fun | .write (.haveP i) => some (a, i) | _ => none
+
+def announcedBy (m : MState) (a : Nat) (outs : List HOut) : List Nat :=
+  if cmdsOf outs = [.pieceDone] then ((findPeer m a).bind (·.pieceIndex)).toList else []
+
+/-- A step of the whole client (`SysStep`) with the broadcast channel in the loop: a task handles `SendHave i` only if
+    the manager has broadcast it (delay, and loss to a lagging receiver, are allowed: not every broadcast need arrive);
+    a new task has nothing held back. -/
+inductive StepH (T : Torrent) (sha1 : Bytes → Bytes) : SysH → SysH → Prop where
+  | connect (X : SysH) (a : Nat) (t : HState) (m' : MState) :
+      findPeer X.S.m a = none → FreshTask t → t.msgBuff = [] → mstep X.S.m (.add a X.S.m.statuses.length) = .ok m' .none →
+      StepH T sha1 X { X with S := { X.S with m := m', tasks := updateTask X.S.tasks a t } }
+  | own (X : SysH) (a : Nat) (d : Option (Bytes × Bytes)) (inp : HIn) (m' : MState) (t' : HState) (outs : List HOut) :
+      LStepO T sha1 (diskOf d) a X.S.m (X.S.tasks a) inp m' t' outs →
+      (∀ i rep, inp = .bcHave i rep → i ∈ X.announced) →
+      StepH T sha1 X
+        { S := { m := m', tasks := updateTask X.S.tasks a t', stored := savedBy sha1 (X.S.tasks a) outs ++ X.S.stored },
+          announced := announcedBy X.S.m a outs ++ X.announced,
+          wrote := haveFrames a outs ++ X.wrote }
+
+inductive ReachH (T : Torrent) (sha1 : Bytes → Bytes) : SysH → Prop where
+  | init (n : Nat) (dead : Nat → HState) : (∀ a, (dead a).alive = false) →
+      ReachH T sha1 { S := { m := { statuses := List.replicate n .missing, peers := [] }, tasks := dead, stored := [] },
+                      announced := [], wrote := [] }
+  | step (X X' : SysH) : ReachH T sha1 X → StepH T sha1 X X' → ReachH T sha1 X'
+
+/-- Forgetting the logs gives an execution of the whole-client model of C01. -/
+theorem reachH_reach (T : Torrent) (sha1 : Bytes → Bytes) (X : SysH) (h : ReachH T sha1 X) : SysReach T sha1 X.S := by
+  induction h with
+  | init n dead hd => exact SysReach.init n dead hd
+  | step X X' _ hs ih =>
+    cases hs with
+    | connect a t m' h1 h2 _ h4 => exact SysReach.step _ _ ih (SysStep.connect X.S a t m' h1 h2 h4)
+    | own a d inp m' t' outs hl _ => exact SysReach.step _ _ ih (SysStep.own X.S a d inp m' t' outs hl)
+
+/-- The invariant: whatever a live task holds back, and whatever has been written, has been broadcast; and whatever has
+    been broadcast for an index of the torrent is owned. -/
+structure InvH (X : SysH) : Prop where
+  held : ∀ a, (X.S.tasks a).alive = true → ∀ i ∈ (X.S.tasks a).msgBuff, i ∈ X.announced
+  wrote : ∀ ai ∈ X.wrote, ai.2 ∈ X.announced
+  owned : ∀ i ∈ X.announced, i < X.S.m.statuses.length → X.S.m.statuses[i]? = some .have
+
+theorem invH_step (T : Torrent) (sha1 : Bytes → Bytes) (X X' : SysH) (hinv : InvH X) (hs : StepH T sha1 X X') : InvH X' := by
+  cases hs with
+  | connect a t m' hnone hfresh hbuf hadd =>
+    simp only [mstep, Out.ok.injEq] at hadd
+    obtain ⟨rfl, _⟩ := hadd
+    refine ⟨fun b hb i hi => ?_, hinv.wrote, hinv.owned⟩
+    simp only [updateTask] at hb hi
+    by_cases hba : b = a
+    · simp only [hba, if_true] at hi; rw [hbuf] at hi; cases hi
+    · simp only [hba, if_false] at hb hi; exact hinv.held b hb i hi
+  | own a d inp m' t' outs hl hbc =>
+    obtain ⟨e, m1, hh, hH, rfl⟩ := hl
+    have hmono : ∀ i, i ∈ X.announced → i ∈ announcedBy X.S.m a outs ++ X.announced :=
+      fun i hi => List.mem_append_right _ hi
+    -- lengths and owned pieces survive the step
+    have hkeep : (afterEnd a e m1).statuses.length = X.S.m.statuses.length ∧
+        ∀ i : Nat, X.S.m.statuses[i]? = some Status.have → (afterEnd a e m1).statuses[i]? = some Status.have := by
+      obtain ⟨hl2, hk2⟩ := afterEnd_keeps a e m1
+      rcases handled_cases T a X.S.m m1 _ _ hH with rfl | ⟨ev, r, hm, _⟩
+      · exact ⟨hl2, hk2⟩
+      · exact ⟨by rw [hl2, mstep_length _ _ _ _ hm], fun i hi => hk2 i (T1_have_absorbing _ _ _ _ hm i hi)⟩
+    refine ⟨fun b hb i hi => ?_, fun ai hai => ?_, fun i hi hlt => ?_⟩
+    · simp only [updateTask] at hb hi
+      split at hb
+      · rename_i hba
+        simp only [hba, if_true] at hi
+        -- a dead task does not come back to life
+        cases hal : (X.S.tasks a).alive with
+        | false =>
+          simp only [hstep, hal, Bool.not_false, if_true, Option.some.injEq, Prod.mk.injEq] at hh
+          obtain ⟨rfl, _, _⟩ := hh
+          rw [hal] at hb; cases hb
+        | true =>
+          rcases (have_step sha1 d _ inp t' outs e hal hh).2 hb i hi with hold | ⟨rep, rfl⟩
+          · exact hmono i (hinv.held a hal i hold)
+          · exact hmono i (hbc i rep rfl)
+      · rename_i hba
+        simp only [hba, if_false] at hi
+        exact hmono i (hinv.held b hb i hi)
+    · simp only [List.mem_append] at hai
+      rcases hai with hnew | hold
+      · simp only [haveFrames, List.mem_filterMap] at hnew
+        obtain ⟨o, ho, hoi⟩ := hnew
+        cases hal : (X.S.tasks a).alive with
+        | false =>
+          simp only [hstep, hal, Bool.not_false, if_true, Option.some.injEq, Prod.mk.injEq] at hh
+          obtain ⟨_, rfl, _⟩ := hh
+          cases ho
+        | true =>
+          have hw : HOut.write (.haveP ai.2) ∈ outs := by
+            split at hoi
+            · cases hoi; exact ho
+            · cases hoi
+          rcases (have_step sha1 d _ inp t' outs e hal hh).1 _ hw with hold | ⟨rep, rfl⟩
+          · exact hmono _ (hinv.held a hal _ hold)
+          · exact hmono _ (hbc _ rep rfl)
+      · exact hmono _ (hinv.wrote ai hold)
+    · simp only at hlt ⊢
+      rw [hkeep.1] at hlt
+      simp only [List.mem_append] at hi
+      rcases hi with hnew | hold
+      · -- broadcast in this step: the piece that `PieceDone` has just made owned
+        unfold announcedBy at hnew
+        split at hnew
+        · rename_i hcs
+          cases hp : findPeer X.S.m a with
+          | none => simp [hp] at hnew
+          | some p =>
+            simp only [hp, Option.bind_some, Option.mem_toList] at hnew
+            rcases handled_cases T a X.S.m m1 _ _ hH with rfl | ⟨ev, r, hm, hev⟩
+            · rw [hcs] at hH; simp only [Handled] at hH
+              obtain ⟨ch, r0, hm, _⟩ := hH
+              have hb : broadcastHave X.S.m (.pieceDone a ch) = some i := by simp [broadcastHave, hp, hnew]
+              exact (afterEnd_keeps a e _).2 i (T2_have_broadcast_only_for_owned _ _ _ r0 i hm hb hlt)
+            · obtain ⟨ch, rfl⟩ := hev hcs
+              have hb : broadcastHave X.S.m (.pieceDone a ch) = some i := by simp [broadcastHave, hp, hnew]
+              exact (afterEnd_keeps a e m1).2 i (T2_have_broadcast_only_for_owned _ _ _ r i hm hb hlt)
+        · cases hnew
+      · exact hkeep.2 i (hinv.owned i hold hlt)
+
+theorem invH_reach (T : Torrent) (sha1 : Bytes → Bytes) (X : SysH) (h : ReachH T sha1 X) : InvH X := by
+  induction h with
+  | init n dead hd => exact ⟨fun a ha => (by rw [hd a] at ha; cases ha), fun _ h => (by cases h), fun _ h => (by cases h)⟩
+  | step X X' _ hs ih => exact invH_step T sha1 X X' ih hs
+
+/-- **T4 (C11, the whole client).** Any number of connection tasks and the manager in closed loop, with the broadcast
+    channel between them (a task handles `SendHave i` only after the manager broadcast it; broadcasts may be delayed
+    or lost), every input, every interleaving, every outcome of the chooser: every `Have i` that any task has ever
+    written, to any peer, was broadcast by the manager before; and for an index of the torrent, piece `i` is owned and a
+    piece file named by the hash listed for `i`, with data hashing to exactly that value, was written by a task that was
+    fetching piece `i` (C01.T6). (An index outside the torrent is never assigned: C13.T1 — the chooser's picks are
+    eligible pieces.) -/
+theorem T4_whole_client_have_only_for_stored_pieces (T : Torrent) (sha1 : Bytes → Bytes) (X : SysH)
+    (h : ReachH T sha1 X) (a i : Nat) (hw : (a, i) ∈ X.wrote) :
+    i ∈ X.announced ∧ (i < X.S.m.statuses.length →
+      X.S.m.statuses[i]? = some .have ∧ (i, T.hashes.getD i [], T.hashes.getD i []) ∈ X.S.stored) := by
+  have hinv := invH_reach T sha1 X h
+  have ha := hinv.wrote (a, i) hw
+  refine ⟨ha, fun hlt => ?_⟩
+  have ho := hinv.owned i ha hlt
+  exact ⟨ho, T6_whole_client_owned_pieces_have_been_stored T sha1 X.S (reachH_reach T sha1 X h) i ho⟩
+
+end Whole
+
 /-! ### Non-vacuity (tests) -/
 example : initBitfield [.have, .missing, .reserved 1, .have] = [0x90] := by
   unfold initBitfield; rw [fromVec_step _ (by simp)]; simp [fromVec_nil]; decide
